@@ -38,8 +38,10 @@ def main(tier, seed):
                  "for every kind of named type a compiled module re-declares (struct/union and enum table entries) and for "
                  "integer constants, a structural obligation on the clang AST says that the realizing function consults "
                  "the included FFIs; the one for enums fails: known finding C34-enum-not-shared",
-                 "not under contract: make_included_tuples (a contract was written; four obligations stay undecided in "
-                 "budget, so it is not part of the check), lib_build_and_cache_attr's delegation loop over included libs, "
+                 "make_included_tuples: the import machinery (PyImport_ImportModule, PyObject_GetAttrString of \"ffi\" / "
+                 "\"lib\") is recorded; the NULL-terminated name list is kept as whole words in a heap of its own (A-SEP); "
+                 "'none of the n names is NULL' is a quantified fact for callers, the body uses named instances",
+                 "not under contract: lib_build_and_cache_attr's delegation loop over included libs, "
                  "ffi_fetch_int_constant, the recompiler's emission of _CFFI_F_EXTERNAL"],
         technique="contract-based deductive verification: Python functions by exhaustive case contracts (pyvc), the C "
                   "lookup through include chains over a trace of recorded realizations (cvc)")
